@@ -42,6 +42,8 @@ ALLOW = {
     "toupper": "reads the global locale only (no write)", "tolower": "reads the global locale only (no write)",
     "deflateInit2_": "zlib: state in the caller's z_stream", "deflate": "zlib: state in the caller's z_stream",
     "deflateEnd": "zlib: state in the caller's z_stream",
+    "__assert_fail": "glibc assert(): reports and aborts the whole process; touches no state of another instance",
+    "abort": "terminates the process",
     "deflateReset": "zlib: state in the caller's z_stream", "deflateResetKeep": "zlib: state in the caller's z_stream",
     "deflateInit_": "zlib: state in the caller's z_stream", "deflateParams": "zlib: state in the caller's z_stream",
     "deflateBound": "zlib: reads the caller's z_stream", "deflatePending": "zlib: reads the caller's z_stream",
@@ -179,6 +181,13 @@ def check(run):
             for c in ir.calls_in(g["body"]):
                 if c.get("k") == "Call" and callee_name(c) == "close" and (c.get("callee") or {}).get("externc") and c.get("args"):
                     p = path(c["args"][0])
+                    if p and len(p) == 1 and p[0].startswith("l:"):
+                        # `int fd = m_fd; m_fd = -1; ::close(fd);` releases the member's descriptor through a local copy
+                        for d_ in ir.walk(g["body"]):
+                            if d_.get("k") == "Decl":
+                                for v_ in d_.get("vars", []):
+                                    if "n" in v_ and "l:%s#%s" % (v_["n"], v_["id"]) == p[0] and v_.get("init") is not None:
+                                        p = path(v_["init"]) or p
                     if p and p[0] == "this" and len(p) == 2:
                         closers[g["qn"]] = p[1]
         if not closers or f.get("dtor") or f["qn"] in closers:
